@@ -6,6 +6,7 @@ case formats (see ocaml/drv_c05.ml / harness/drv_c05.c):
 """
 import itertools
 import os
+import re
 from concurrent.futures import ThreadPoolExecutor
 
 import vlib
@@ -34,8 +35,6 @@ _header = ["H", "4"]
 
 def build(ctx):
     ctx.build_driver("drv_c05", ["ring.c", "allocator.c", "errno_status.c", "status.c"])
-    if os.environ.get("ZIX_REPO") or not os.path.exists(os.path.join(vlib.OCAML_BUILD, "drv_c05")):
-        pass
     if not os.path.exists(os.path.join(vlib.OCAML_BUILD, "drv_c05")):
         rc, out, err = vlib.sh([os.path.join(vlib.VERIF, "tools", "build_models.sh"), "C05"], timeout=900)
         if rc != 0:
@@ -257,11 +256,16 @@ def run_impl(ctx, cases):
     def one(cs):
         rc, out, err = ctx.run_lines([ctx.path("drv_c05")], cs)
         if rc != 0 or len(out) != len(cs):
-            first = err.strip().split("\n")
-            msg = next((l for l in first if "ERROR" in l or "error" in l), first[0] if first else "")
+            lines = err.strip().split("\n")
+            msg = next((l for l in lines if "ERROR" in l or "error" in l), lines[0] if lines else "")
+            msg = re.sub(r"0x[0-9a-fA-F]+", "ADDR", re.sub(r"==\d+==", "", msg))
+            msg = " ".join(msg.split()[:6])
+            while out and out[-1] == "":
+                out.pop()
             out = out[:len(cs)]
-            if out and len(out) < len(cs) and not out[-1].endswith("\n"):
-                pass
+            # a line cut short by the crash
+            if out and len(out) <= len(cs) and cs[len(out) - 1].startswith("H") and " drain=" not in out[-1]:
+                out[-1] = "CRASH rc=%d %s after: %s" % (rc, msg[:160], out[-1][-200:])
             out = out + ["CRASH rc=%d %s" % (rc, msg[:160])] * (len(cs) - len(out))
         return out
     res = _parallel(one, cases)
